@@ -781,15 +781,7 @@ func (r *RegisteredDecoys) getExpiredRegistrations() []string {
 	var expiredRegTimeoutIndices = []string{}
 
 	for idx, regTimeout := range r.decoysTimeouts {
-		if regTimeout.status == regStatusUnused && time.Since(regTimeout.registrationTime) > r.timeoutUnused {
-			// if a registration has not senewTimeouten a valid connection in within the
-			// timeout we remove it from tracking as we do not expect to see a
-			// valid connection and no longer need it. Clients should retry with
-			// a new registration if connection has failed for this duration.
-			expiredRegTimeoutIndices = append(expiredRegTimeoutIndices, idx)
-		} else if time.Since(regTimeout.registrationTime) > r.timeoutActive {
-			// if a registration was received before the cutoff time add it
-			// to the list of registrations to be removed.
+		if r.isExpired(regTimeout) {
 			expiredRegTimeoutIndices = append(expiredRegTimeoutIndices, idx)
 		}
 	}
@@ -797,11 +789,32 @@ func (r *RegisteredDecoys) getExpiredRegistrations() []string {
 	return expiredRegTimeoutIndices
 }
 
+// isExpired reports whether the registration that the timeout belongs to should be removed. For
+// use inside of this struct (caller holds the mutex).
+func (r *RegisteredDecoys) isExpired(regTimeout *DecoyTimeout) bool {
+	if regTimeout.status == regStatusUnused && time.Since(regTimeout.registrationTime) > r.timeoutUnused {
+		// if a registration has not seen a valid connection in within the
+		// timeout we remove it from tracking as we do not expect to see a
+		// valid connection and no longer need it. Clients should retry with
+		// a new registration if connection has failed for this duration.
+		return true
+	} else if time.Since(regTimeout.registrationTime) > r.timeoutActive {
+		// if a registration was received before the cutoff time it is to be removed.
+		return true
+	}
+	return false
+}
+
 func (r *RegisteredDecoys) removeRegistration(index string) *regExpireLogMsg {
 	r.m.Lock()
 	defer r.m.Unlock()
 
-	expiredReg := r.decoysTimeouts[index]
+	// The index was collected under the read lock; re-check under the write lock. A connection may
+	// have marked the registration as used (extending its lifetime) in between.
+	expiredReg, ok := r.decoysTimeouts[index]
+	if !ok || !r.isExpired(expiredReg) {
+		return nil
+	}
 	expiredRegObj, ok := r.decoys[expiredReg.decoy][expiredReg.identifier]
 	if !ok {
 		return nil
@@ -851,8 +864,11 @@ func (r *RegisteredDecoys) removeOldRegistrations(logger *log.Logger) (int, int)
 	verifhook.Yield("sweep.collect", r)
 	var expiredRegTimeoutIndices = r.getExpiredRegistrations()
 
+	r.m.RLock()
+	totalRegs, totalTimeouts := r.totalRegistrations(), len(r.decoysTimeouts)
+	r.m.RUnlock()
 	logger.Debugf("cleansing registrations - registrations: %d, timeouts: %d, expired: %d",
-		r.TotalRegistrations(), len(r.decoysTimeouts), len(expiredRegTimeoutIndices))
+		totalRegs, totalTimeouts, len(expiredRegTimeoutIndices))
 
 	expiredValid := 0
 	for _, idx := range expiredRegTimeoutIndices {
